@@ -146,6 +146,7 @@ def chain_future(
 
     The result (success or failure) of ``a`` will be copied to ``b``, unless
     ``b`` has already been completed or cancelled by the time ``a`` finishes.
+    If ``a`` is cancelled, ``b`` is cancelled too.
 
     .. versionchanged:: 5.0
 
@@ -157,7 +158,9 @@ def chain_future(
     def copy(a: "Future[_T]") -> None:
         if b.done():
             return
-        if hasattr(a, "exc_info") and a.exc_info() is not None:  # type: ignore
+        if a.cancelled():
+            b.cancel()
+        elif hasattr(a, "exc_info") and a.exc_info() is not None:  # type: ignore
             future_set_exc_info(b, a.exc_info())  # type: ignore
         else:
             a_exc = a.exception()
